@@ -27,7 +27,7 @@ import (
 func init() { vh.Register("C16", Run) }
 
 type replayCase struct {
-	Kind string            `json:"kind"` // prog | struct
+	Kind string            `json:"kind"` // prog | struct | order (Type + snippet = field)
 	Name string            `json:"name,omitempty"`
 	Tags []string          `json:"tags,omitempty"`
 	Src  string            `json:"src,omitempty"`
@@ -400,7 +400,7 @@ func Run(c *vh.Ctx) {
 			c.Note("bad replay: %v", err)
 			return
 		}
-		if rc.Kind == "struct" {
+		if rc.Kind == "struct" || rc.Kind == "order" {
 			structReplay(c, m, rc)
 			return
 		}
